@@ -122,6 +122,7 @@ class C04(Check):
                          'flavour_layout_calls', 'flavour_args_unchanged_checks', 'flavour_true_pairs',
                          'gridline_points_exactly_on_dec_bounds', 'gridline_points_on_outer_dec_bounds', 'gridline_points_on_ra_bounds',
                          'lattice_beyond_cases', 'wide_length_cases', 'wide_length_ge_180_cases', 'near_antipodal_pairs',
+                         'seam_tight_cases', 'seam_tight_pairs',
                          'boundary_ra_points', 'dense_cases', 'dense_cases_above_65536_in_one_chunk', 'dense_true_pairs', 'equal_ra_list1_cases', 'equal_dec_list1_cases')
 
     # ------------------------------------------------------------------ wiring
@@ -173,6 +174,7 @@ class C04(Check):
             'flavours': 400 if q else 8000,
             'gridlines': 240 if q else 5000,
             'wide_lengths': 120 if q else 2500,
+            'seam_tight': 160 if q else 3000,
             'dense': len(DENSE_QUICK) if q else 4 * len(DENSE_SIZES),
             'degenerate': 300 if q else 6000,
         }
@@ -317,6 +319,71 @@ class C04(Check):
         rng.shuffle(allp)
         return {'m': m, 'cs': cs, 'k': rng.choice([0, 0, 0, 1, 2]), 'ra1': [R.wrap360(q[0]) for q in pts], 'dec1': [q[1] for q in pts],
                 'ra2': [R.wrap360(q[0]) for q in allp], 'dec2': [q[1] for q in allp], 'kind': 'lattice'}
+
+    def gen_seam_tight(self, rng, nr, i):
+        """explicit chunk size barely above the match length (ratio 1.0001 .. 1.1; exactly 1.0 is refused by chunks.assign),
+        an all-sky first list (every slice goes all around, no RA offset avoids 0/360), match lengths 5-45 deg, and pairs
+        put across RA 0/360 (and other chunk edges) of every all-around slice of the recorded geometry with RA differences
+        up to the largest one a pair closer than m can have - the partner sits where the meridian touches the circle of
+        radius m(1 - 10^-u) around the list-1 point (RA difference asin(sin m / cos dec)), or due E-W, or anywhere."""
+        m = rng.uniform(5.0, 45.0)
+        cs = m * rng.choice([1.0001, 1.001, 1.01, 1.01, 1.02, 1.03, 1.05, 1.08, 1.1])
+        if rng.random() < 0.3:
+            cs = float(rng.choice([8, 10, 15, 20, 25, 30, 40, 45]))       # round chunk sizes, match length just below
+            m = cs / rng.choice([1.0001, 1.01, 1.02, 1.03, 1.05])
+        n1 = rng.randint(30, 60)
+        ra1, dec1 = sphere_scatter(nr, n1)
+        g = self._learn(ra1, dec1, cs)
+        ra2, dec2 = [], []
+        wide = 0
+        if g is not None:
+            for sl in range(g.nDec):
+                if not g.all_around(sl) or g.nRa[sl] < 2:
+                    continue
+                lo, hi = g.decBounds[sl], g.decBounds[sl + 1]
+                w = g.width(sl)
+                pw, other = g.poleward(sl)
+                for _ in range(rng.randint(2, 4)):
+                    r = rng.random()
+                    d1 = pw - math.copysign(10.0 ** rng.uniform(-6, -0.3) * (hi - lo), pw - other) if r < 0.6 else rng.uniform(lo, hi)
+                    d1 = clipdec(d1)
+                    if not (lo <= d1 < hi):
+                        continue
+                    mm = m * (1.0 - 10.0 ** -rng.choice([2, 3, 4, 5, rng.uniform(1, 6)])) if rng.random() < 0.8 else m * rng.uniform(0.5, 1.0)
+                    t = math.tan(math.radians(mm)) * math.tan(math.radians(d1))
+                    kind = rng.choice(['tangent', 'tangent', 'ew', 'any'])
+                    if kind == 'tangent' and abs(t) < 1.0:
+                        b = math.degrees(math.acos(t))
+                    elif kind == 'ew':
+                        b = 90.0
+                    else:
+                        b = rng.uniform(5.0, 175.0)
+                    a2, d2 = R.destination(0.0, d1, b, mm)          # partner east of a list-1 point at RA 0
+                    if abs(d2) >= DECLIM or not (0.0 < a2 < 170.0):
+                        continue
+                    D = a2
+                    edge = rng.choice([0.0, 0.0, 360.0, g.raBounds[sl][rng.randint(0, g.nRa[sl])]])
+                    off = D * rng.choice([10.0 ** rng.uniform(-9, -2), rng.uniform(0.0, 0.5)])
+                    if rng.random() < 0.5:
+                        x2, x1 = edge + off, edge - (D - off)           # list 2 just east of the edge, list 1 up to D west of it
+                    else:
+                        x1, x2 = edge - off, edge + (D - off)           # the roles of the sides swapped (partner still east)
+                    ra1.append(g.unrot(x1 % 360.0))
+                    dec1.append(d1)
+                    ra2.append(g.unrot(x2 % 360.0))
+                    dec2.append(d2)
+                    wide += D > w
+        fa, fd = self._partners(rng, ra1, dec1, m, 6, 0.3, 1.5)
+        ra2 += fa
+        dec2 += fd
+        if not ra2:
+            ra2, dec2 = [ra1[0]], [dec1[0]]
+        case = {'m': m, 'cs': cs, 'k': rng.choice([0, 0, 0, 0, 1, 2]), 'ra1': ra1, 'dec1': dec1, 'ra2': ra2, 'dec2': dec2,
+                'made': {'pairs': len(ra2) - len(fa), 'wider_than_a_chunk': int(wide)}}
+        # variants: permutation, and another tight ratio (the oracle judges each execution)
+        case['variants'] = [{'p1': rng.getrandbits(32), 'p2': rng.getrandbits(32), 'cs': cs, 'k': case['k']},
+                            {'p1': None, 'p2': None, 'cs': m * rng.choice([1.0001, 1.01, 1.03, 1.05, 1.1]), 'k': case['k']}]
+        return case
 
     def gen_wide_lengths(self, rng, nr, i):
         """the large end of the match length: 30-360 deg (90, 120, 170, 179.9, 180, 180.1, 200, 270, 359, 360 and random), all-sky
@@ -976,6 +1043,10 @@ class C04(Check):
             out.count('equal_ra_list2_cases')
         if case.get('kind') == 'lattice' and case.get('cls') == 'gridlines':
             out.count('lattice_beyond_cases')
+        if case.get('cls') == 'seam_tight':
+            out.count('seam_tight_cases')
+            out.count('seam_tight_pairs', case['made']['pairs'])
+            out.count('seam_tight_pairs_wider_than_a_chunk', case['made']['wider_than_a_chunk'])
         if case.get('cls') == 'wide_lengths':
             out.count('wide_length_cases')
             if m >= 180.0:
